@@ -22,7 +22,7 @@ CLAIMED = {
    ref="5/C03"),
  "C14": dict(
    technique="property-based testing: metamorphic/algebraic laws between runs of rrss, exhaustive over all ordered pairs of the value universe plus random pairs",
-   text="For all 2500 ordered pairs of the universe (exhaustive) and 200k random pairs (quick): symmetry of is, isnt/is not/ain't = negation, < vs >, <= vs >= incl. error symmetry, (<= and >=) = is when ordered, not/and/or/nor vs truthiness observed by if, compound assignment = expansion, build^n knock^n restores; both as programs and through Val's public methods. No model involved.",
+   text="For all 2500 ordered pairs of the universe (exhaustive) and 120k random pairs (quick): symmetry of is, isnt/is not/ain't = negation, < vs >, <= vs >= incl. error symmetry, (<= and >=) = is when ordered, not/and/or/nor vs truthiness observed by if, compound assignment = expansion, build^n knock^n restores; both as programs and through Val's public methods. No model involved.",
    note="restoration by build/knock is only demanded where every intermediate sum is exactly representable (integers, dyadic fractions; not -0), otherwise IEEE rounding decides, not rrss",
    ref="5/C14"),
  "C12": dict(
